@@ -31,7 +31,7 @@ STUB = ['stored-byte corruption injector', 'arrival schedule', 'independent well
 
 
 def gen_plan(r, index, tier):
-    w, cfg = common.gen_stream_workload(r, max_values=1, small=r.random() < 0.7, constraints=True)
+    w, cfg = common.gen_stream_workload(r, max_values=1, small=r.random() < 0.7, constraints=True, untyped_of=r.random() < 0.5)
     if U.has_open(w['desc']):
         cfg2 = U.GenCfg(max_depth=2, allow_open=False, allow_constraints=True, prims=cfg.prims)
         w['desc'] = U.gen_desc(r, cfg2)
